@@ -35,9 +35,12 @@ class PBView:
         self.prog = prog
         self.body = prog.one(r"private_batch::circuit::circuit_logic::build_private_batch_constraints$", AGG)
         ck.saw(self.body)
-        self.ev = T.Evaluator(prog, inline=lambda p: "::constants::" in p)
+        # helpers of the aggregator crate are expanded in place (an extracted helper is the same circuit); gadgets of the common crate stay atomic
+        self.ev = T.Evaluator(prog, inline=lambda p: (p.startswith(AGG + "::") or p.startswith("<" + AGG + "::")) and "{closure" not in p)
         self.fr = self.ev.frame(self.body)
         self.effects = self.fr.effects()
+        for e in self.effects:
+            ck.saw(e.frame.body)
         self.K = consts(prog)
         self.targets = ("param", self.body.path, 2, "targets")
         self.n = ("param", self.body.path, 3, "n_leaf")
@@ -513,6 +516,7 @@ def analyse(ck, prog=None):
     if SN is not None:
         ps = container_pushes(SN)
         good = len(ps) == 1 and ps[0][0] == "one"
+        okh = True
         det = [(k, T.show(t, maxdepth=6)[:600]) for k, t, _ in ps]
         if good:
             e = ps[0][2]
@@ -531,26 +535,14 @@ def analyse(ck, prog=None):
                     dn = P.norm(b["dn"])
                     rrd = v.read(rn[1]) if (isinstance(rn, tuple) and rn[0] == "idx" and rn[2] == ("c", k, None)) else None
                     good = good and rrd == (i, Kc["NULLIFIER_START"], 4)
-                    dn_ok = isinstance(dn, tuple) and dn[0] == "idx" and dn[2] == ("c", k, None) and P.call_name(dn[1]) and P.call_name(dn[1]).endswith("hash_dummy_nullifier_pre_image") \
-                        and P.norm(dn[1][4][1]) == ("idx", ("fld", v.targets, "dummy_nullifier_pre_images"), i)
+                    # helpers of the crate are expanded in place, so the dummy replacement is visible as H(H(preimage_i)).elements[k]
+                    from .leaf import double_hash_preimage
+                    dpre = double_hash_preimage(dn[1]) if (isinstance(dn, tuple) and dn[0] == "idx" and dn[2] == ("c", k, None)) else None
+                    dn_ok = dpre is not None and P.norm(dpre) == ("idx", ("fld", v.targets, "dummy_nullifier_pre_images"), i)
+                    okh = okh and dn_ok
                     good = good and dn_ok
         ob.add({"C06", "C09"}, good, "TERM", "pb/nullifier/select", "selected[i][k] = select(is_dummy_i, H(H(preimage_i))[k], nullifier_i[k]) for i in 0..n_leaf, k in 0..4", loc(ps[0][2]) if ps else loc0, det)
-        # helper body: H(H(u))
-        hb = prog_one(v.prog, r"circuit_logic::hash_dummy_nullifier_pre_image$")
-        ck.saw(hb)
-        hfr = v.ev.frame(hb)
-        rt = P.norm(hfr.return_term())
-        pre = ("param", hb.path, 2, "pre_image")
-        inner = None
-        okh = False
-        if isinstance(rt, tuple) and rt[0] == "fld" and rt[2] == "elements":
-            a = P.cb_args(rt[1], "cb.hash_n_to_hash_no_pad_p2")
-            if a is not None:
-                x = P.norm(a[0])
-                if isinstance(x, tuple) and x[0] == "fld" and x[2] == "elements":
-                    a2 = P.cb_args(x[1], "cb.hash_n_to_hash_no_pad_p2")
-                    okh = a2 is not None and P.norm(a2[0]) == pre
-        ob.add({"C06"}, okh, "TERM", "pb/nullifier/dummy-hash", "dummy replacement is H(H(preimage)) (double Poseidon2 over the 4 preimage felts)", "%s:%s" % (hb.file, hb.line), T.show(rt)[:300])
+        ob.add({"C06"}, good and okh, "TERM", "pb/nullifier/dummy-hash", "dummy replacement is H(H(preimage)) (double Poseidon2 over the 4 preimage felts of that slot)", loc(ps[0][2]) if ps else loc0, det)
 
     # ---------------------------------------------------------------- padding
     pad = [it for it in after if it not in null_items]
